@@ -7,7 +7,8 @@ from .common import seed as get_seed
 
 SOLVER_OPTS = {
     "A": {"ipopt.print_level": 0, "print_time": False, "ipopt.sb": "yes", "ipopt.max_iter": 0, "ipopt.tol": 1e-6},
-    "B": {"ipopt.print_level": 0, "print_time": False, "ipopt.sb": "yes", "ipopt.max_iter": 0, "ipopt.tol": 1e-4},
+    # deliberately a different key set than A (options of a superseded call must not linger)
+    "B": {"ipopt.print_level": 0, "print_time": False, "ipopt.max_iter": 0, "ipopt.acceptable_tol": 1e-4, "ipopt.mu_strategy": "adaptive"},
 }
 
 # ------------------------------------------------------------------------------------------
